@@ -411,6 +411,33 @@ def rules(P, R, prefix="C14"):
 
         # ---------------- F7 peer replies once per frame, in order
         f7(prog, env, W, R, prefix, tag)
+        # ---------------- F9 the reconnection back-off is one countdown, not one per drained message
+        from ..common import fresh_timer_arms
+        fta = fresh_timer_arms(cfns)
+        for (f, n, b), i in ordinal_keys(fta, lambda x: x[0].path):
+            R.fail(prefix + ".F9", key(f, "timer arm polls a timer created outside the loop" + tag, i), n["sp"],
+                   "the timer of this select! arm is created in the arm itself (`%s`): every message drained meanwhile restarts the back-off, so under "
+                   "steady traffic the connection is never re-established" % ir.pp(b["fut"], maxlen=80))
+        R.ok(prefix + ".F9", "no per-iteration timers in the connection loops" + tag + " (%d found)" % len(fta), "", "")
+        # ---------------- F8 writer and reader agree on the framing: every socket of the workspace is framed with the same codec
+        # construction, so every frame a sender can emit (the codec's own limit) is a frame the receiver accepts
+        fr = [(f, n) for f in prog.fns.values() if not f.derived for n in f.nodes()
+              if n["k"] == "call" and any(p.startswith("tokio_util::codec::framed::Framed") and p.endswith("::new") for p in callee_paths(n))]
+        R.floor(prefix + ".F8", len(fr), 3, "Framed::new sites (receiver, reliable sender, simple sender)" + tag)
+        codecs = {}
+        for (f, n) in fr:
+            codecs.setdefault(env.ctx(f).term(n["args"][1]) if len(n["args"]) > 1 else "?", []).append((f, n))
+        if len(codecs) == 1:
+            R.ok(prefix + ".F8", "all sockets use the same frame codec" + tag, fr[0][1]["sp"], list(codecs)[0][:120])
+        else:
+            major = max(codecs, key=lambda k_: len(codecs[k_]))
+            for k_, sites in codecs.items():
+                if k_ == major:
+                    continue
+                for (f, n), i in ordinal_keys(sites, lambda x: x[0].path):
+                    R.fail(prefix + ".F8", key(f, "all sockets use the same frame codec" + tag, i), n["sp"],
+                           "this socket is framed with `%s` while the others use `%s`: a frame that one side can write is rejected by the other "
+                           "(the connection is dropped and the message retransmitted for ever)" % (k_[:160], major[:160]))
 
 
 def bulk_move(env, f, n, q, B, Pq):
